@@ -112,15 +112,25 @@ var (
 	pgBigs = []string{"0", "1", "1000", "1000000000000", "1000000000000000000000000000000"}
 )
 
+// moderateParams: outside the C18 parameter profile (where ANY accepted setting must leave block processing
+// alive) proposals stay within magnitudes a governance would plausibly vote for: rates, factors and portions up
+// to 2, counters up to 1e9. The accounting properties are not stated for a funding rate of 1e12 per year, under
+// which positions' custody simply goes negative.
+var moderateParams = true
+
 func setBoundary(g *G, l paramLeaf) string {
 	v := l.v
+	decs, ints, bigs := pgDecs, pgInts, pgBigs
+	if moderateParams {
+		decs, ints, bigs = pgDecs[:10], pgInts[:8], pgBigs[:4]
+	}
 	switch v.Type() {
 	case pgDecType:
-		s := pgDecs[g.Pick("pg/dec", len(pgDecs))]
+		s := decs[g.Pick("pg/dec", len(decs))]
 		v.Set(reflect.ValueOf(sdkmath.LegacyMustNewDecFromStr(s)))
 		return s
 	case pgIntType:
-		s := pgBigs[g.Pick("pg/int", len(pgBigs))]
+		s := bigs[g.Pick("pg/int", len(bigs))]
 		n, _ := sdkmath.NewIntFromString(s)
 		v.Set(reflect.ValueOf(n))
 		return s
@@ -130,14 +140,14 @@ func setBoundary(g *G, l paramLeaf) string {
 		v.SetBool(!v.Bool())
 		return fmt.Sprint(v.Bool())
 	case reflect.Int32, reflect.Int64:
-		n := pgInts[g.Pick("pg/i", len(pgInts))]
+		n := ints[g.Pick("pg/i", len(ints))]
 		if v.Kind() == reflect.Int32 && n > math.MaxInt32 {
 			n = math.MaxInt32
 		}
 		v.SetInt(n)
 		return fmt.Sprint(n)
 	case reflect.Uint32, reflect.Uint64:
-		n := pgInts[g.Pick("pg/u", len(pgInts))]
+		n := ints[g.Pick("pg/u", len(ints))]
 		if v.Kind() == reflect.Uint32 && n > math.MaxUint32 {
 			n = math.MaxUint32
 		}
